@@ -78,10 +78,17 @@ def to_jsonable(obj, limit=400):
     return repr(obj)[:500]
 
 
-def digest(obj):
-    """SHA-1 over the bytes, dtype, shape and write flag of every array reachable in obj."""
+_FLAGS = [True]
+
+
+def digest(obj, flags=True):
+    """SHA-1 over the bytes, dtype, shape and (unless flags=False) write flag of every array reachable in obj."""
     sha = hashlib.sha1()
-    _digest_into(sha, obj, 0)
+    _FLAGS[0] = bool(flags)
+    try:
+        _digest_into(sha, obj, 0)
+    finally:
+        _FLAGS[0] = True
     return sha.hexdigest()
 
 
@@ -95,7 +102,7 @@ def _digest_into(sha, obj, depth):
     if depth > 6:
         return
     if isinstance(obj, np.ndarray):
-        sha.update(str((obj.dtype.str, obj.shape, bool(obj.flags.writeable))).encode())
+        sha.update(str((obj.dtype.str, obj.shape, bool(obj.flags.writeable) if _FLAGS[0] else None)).encode())
         if obj.dtype == object:
             for item in obj.ravel():
                 _digest_into(sha, item, depth + 1)
